@@ -388,6 +388,47 @@ def nesting_status(F, R):
             "ok": bool(guard) and guard["increment_only_below_limit"] and guard["releases"] and cut_all and fuel_ok and budget_ok}
 
 
+def budget_is_charged_behind_a_token_decision(F, res, rule="P5a"):
+    """The wrap budget counts what it grants (`can_wrap` stores counter + 1 on every accepting answer), and a budget unit that is
+    granted and not used is lost for the rest of the activation and for everything the activation returns into. So the question is
+    asked only when an operator is there to wrap: every call of the budget test is reached behind a decision on the current token
+    made in the same loop iteration (`matches!(p.nth(0), "(" | ".") && p.can_wrap()`, `infix_bp()` answered Some). Asked first -
+    `!p.can_wrap() || !matches!(..)` - every operand of every expression charges a wrap that never happens; the surplus adds up on
+    the way back out of nested expressions and a well-formed expression 64 levels deep is refused as too deeply nested."""
+    guard = nesting_guard(F)
+    bud = wrap_budget(F, guard) if guard else None
+    if not bud:
+        res.anchor_missing(rule, "the wrap budget test of the parser (a bool method that compares and charges a counter)")
+        return
+    budget = bud["method"]
+    TOKENISH = ("Parser::nth", "Parser::at", "Parser::at_any", "SyntaxKind::infix_bp", "SyntaxKind::postfix_bp", "SyntaxKind::prefix_bp", "TokenSet::contains")
+    n, bad = 0, []
+    for p_, f in sorted(F.fns.items()):
+        if not p_.startswith("syntax::parser::") or not f.blocks or p_ == budget:
+            continue
+        sites = [(b, t) for b, t in f.calls() if (callee(t) or "") == budget]
+        if not sites:
+            continue
+        d = FL.Defs(f)
+        loops = [f.natural_loop(tl, hd) for tl, hd in f.back_edges()]
+        for b, t in sites:
+            n += 1
+            inner = sorted([lp for lp in loops if b in lp], key=len)
+            body = inner[0] if inner else None
+            gs = FL.gates(F, f, [b], d)
+            # calls that look at the current token, in this iteration, before the question
+            looks = [cb for cb, ct in f.calls() if any(FL.short(callee(ct) or callee_def(ct) or "").endswith(x) for x in TOKENISH) and
+                     (body is None or cb in body) and f.dominates(cb, b)]
+            # .. and a decision between the look and the question (the `matches!` on what nth answered, infix_bp's Some)
+            ok = any((body is None or g.get("bb") in body) and any(f.dominates(cb, g["bb"]) for cb in looks) for g in gs)
+            if not ok:
+                bad.append("%s line %s: the budget is asked before the token is looked at (decisions on the way: %s)" % (FL.short(p_), t["ln"], [FL.gate_summary(g) for g in gs][:4]))
+    res.floor("calls of the wrap budget test in the grammar", n, 2)
+    res.ob(rule, "wrap-budget/asked-behind-a-token-decision", "the wrap budget is asked (and charged) only where a decision on the current token has said that an "
+           "operator follows", not bad, where="crates/syntax/src/parser.rs", how="%d calls of %s, each behind a token test of its loop iteration" % (n, FL.short(budget)) if not bad
+           else "; ".join(bad))
+
+
 def run(F, res, tier):
     from rules import c14 as _c14u
     _c14u.text_positions_are_counted_in_bytes(F, res, rule="P8", crates=('syntax',))   # engine U: slicing or bumping by a character / UTF-16 count lands inside a character and panics
@@ -464,6 +505,7 @@ def run(F, res, tier):
 
     # ---- P5
     NS = nesting_status(F, R)
+    budget_is_charged_behind_a_token_decision(F, res)
     guard = NS["guard"]
     res.ob("P5a", "nesting-guard", "a Parser method bounds the nesting: it compares a counter with a constant and counts up only below it; what it "
            "hands out counts down again when dropped", bool(guard) and guard["increment_only_below_limit"] and guard["releases"],
